@@ -53,6 +53,7 @@ class Items:
         self.opa = ctx.opa
         self._norm = {}
         self._search = {}
+        self._chain_helper = {}
 
     # ------------------------------------------------------------------ application
     def apply(self, f, args, depth=0):
@@ -194,6 +195,9 @@ class Items:
             return ('elem', chain)
         if is_into_iter(chain):
             return self.elem_of_into_iter(chain[2][0], depth + 1) if chain[2] else TOP
+        exp = self.expand_chain_helper(chain)
+        if exp is not None:
+            return self.elem(exp, depth + 1)
         if callee(chain) == 'std::iter::from_fn' and chain[2]:
             # the stream of `Some` results of the generator closure (it ends at the first None)
             return self.payload(self.apply(chain[2][0], [], depth + 1), depth + 1)
@@ -324,8 +328,32 @@ class Items:
                 names.append('into_iter')
                 cur = cur[2][0] if cur[2] else None
                 continue
+            exp = self.expand_chain_helper(cur)
+            if exp is not None:
+                cur = exp
+                continue
             break
         return names, cur
+
+    def expand_chain_helper(self, t):
+        """a call of a loop-free crate function that only builds an iterator chain (`map_filter(values, map, filter)` =
+        `values.map(map).filter(filter)`, `chunks_x(iter, c)` = `from_fn(|| iter.next_chunk_x(c))`): what it returns for these
+        arguments, else None"""
+        if t is None or t[0] != 'call' or t[1] not in self.ctx.facts.bodies:
+            return None
+        if t in self._chain_helper:
+            return self._chain_helper[t]
+        self._chain_helper[t] = None
+        b = self.ctx.facts.bodies[t[1]]
+        if b.is_closure() or self.ctx.cfg(b).loops() or len(b.arg_locals()) != len(t[2]):
+            return None
+        y = self.opa.run(t[1], list(t[2])).ret
+        if y is None or y == TOP or y == t or y[0] != 'call':
+            return None
+        if is_iter_method(y) or is_into_iter(y) or callee(y) in ('std::iter::from_fn', 'std::iter::successors') or callee(y).split('::')[-1] in ('values', 'ids_and_values'):
+            self._chain_helper[t] = y
+            return y
+        return None
 
 
     def generator_pull(self, root):
